@@ -75,6 +75,8 @@ Definition flat_obs (o : obs) : list tok :=
   | OEnter x => [TS "enter"; TN x]
   | OLeave x => [TS "leave"; TN x]
   | OEmit k w => [TS "emit"; TN k; TN w]
+  | OPAct k => [TS "pact"; TN k]
+  | OPBuiltin c => [TS "pbuiltin"; TN c]
   end.
 
 Fixpoint ins_hist (e : nat * list nat) (l : list (nat * list nat)) :=
@@ -140,4 +142,28 @@ Fixpoint check_runs (i : nat) (f : ctx -> list (list event) -> list (list tok)) 
       else (i :: bad, tmo)
   end.
 Definition check_macro (eng : engine) (probe : bool) (m : machine) (runs : list (ctx * list (list event) * list (list tok))) :=
-  check_runs 0 (match eng with Sync => sync_case | Async => async_case end probe m) runs.
+  check_runs 0 (match eng with Async => async_case | _ => sync_case end probe m) runs.
+
+(* K-pure: initial_transition, then transition() threaded through the returned snapshots *)
+Definition flat_pure (r : st * option err) : list tok :=
+  let s := fst r in
+  match snd r with
+  | Some e => [TS "err"; TN (err_code e)]      (* the call raised: nothing else is observable *)
+  | None =>
+      TS "cfg" :: map TN (sort_nat (s_cfg s))
+      ++ TS "ctx" :: map (fun v => TZ (ctx_get (s_ctx s) v)) [0; 1; 2; 3]
+      ++ [TS "status"; TN (status_code (s_status s))]
+      ++ TS "output" :: flat_optz (s_output s)
+      ++ TS "actions" :: List.concat (map flat_obs (reported s))
+  end.
+Fixpoint pure_snaps (m : machine) (p : psnap) (evs : list event) : list (list tok) :=
+  match evs with
+  | [] => []
+  | ev :: r => let res := pure_transition m p ev in
+               flat_pure res :: match snd res with None => pure_snaps m (capture (fst res)) r | Some _ => [] end
+  end.
+Definition pure_case (m : machine) (cx : ctx) (evs : list event) : list (list tok) :=
+  let res := pure_initial m cx in
+  flat_pure res :: match snd res with None => pure_snaps m (capture (fst res)) evs | Some _ => [] end.
+Definition check_pure (m : machine) (runs : list (ctx * list event * list (list tok))) : list nat :=
+  bad_idx (fun r => snaps_eqb (pure_case m (fst (fst r)) (snd (fst r))) (snd r)) runs.
